@@ -281,7 +281,10 @@ def run(chk, repo, tier):
             and e[0].bound.get('oversample') == S('oversample')
         wl = e[0].bound.get('wavelength') if e else None
         oks = oks and wl is not None and ('sym', 'wavelength') in nf.value_atoms(wl)
-    chk.ob('C09-c', 'D-flow', fss.key, 'advertised shape is the FFT grid of _fft_shape', oks, '', fss.loc())
+    if not oks and not any(p.calls('propagate._fft_shape') for p in returns(sp)):
+        oks = None          # the grid is not obtained through a helper of that name: how it is computed is not followed here
+    chk.ob('C09-c', 'D-flow', fss.key, 'advertised shape is the FFT grid of _fft_shape', oks,
+           '' if oks is not None else 'undecided: scratch_shape does not call _fft_shape', fss.loc())
     # the grid has round(wavelength*z*oversample/(dx*du)) samples: it grows with the wavelength, so a band of wavelengths
     # needs the buffer of its *longest* one
     okw, detw = None, 'wavelength argument not understood'
